@@ -262,7 +262,15 @@ pub fn run(ctx: &mut Ctx) {
             1 => Some("unknown.verif.test"),
             _ => None,
         };
-        let mut cl = match H3Client::connect(ep.addr, sni, &[b"h3"], window, Duration::from_secs(3)) {
+        // every other hello does not fit one Initial packet (eight 200-byte ALPN identifiers behind h3, about 2 KiB of
+        // CRYPTO data): the TLS stack has not seen the whole hello when the first packet was fed to it
+        let filler: Vec<Vec<u8>> = (0..8).map(|i| vec![b'a' + i as u8; 200]).collect();
+        let mut alpn: Vec<&[u8]> = vec![b"h3"];
+        if k % 2 == 1 {
+            alpn.extend(filler.iter().map(|v| v.as_slice()));
+            ctx.stat("live_quic_hello_in_two_packets");
+        }
+        let mut cl = match H3Client::connect(ep.addr, sni, &alpn, window, Duration::from_secs(3)) {
             Ok(c) => c,
             Err(e) => {
                 ctx.oracle_failure("quic_handshake_failed", &format!("{:?}", e));
@@ -274,7 +282,7 @@ pub fn run(ctx: &mut Ctx) {
         let id = cl.request("CONNECT", None, "_check", None, &[], false);
         cl.wait(Duration::from_secs(2), |c| id.and_then(|i| c.streams.get(&i)).map(|s| s.status.is_some()).unwrap_or(false));
         let status = id.map(|i| cl.stream(i).status).unwrap_or(None);
-        let desc = format!("quiche client #{} with SNI {:?} (handshake random {})", k, sni, hex(&truth));
+        let desc = format!("quiche client #{} with SNI {:?}{} (handshake random {})", k, sni, if k % 2 == 1 { ", hello of about 2 KiB in two Initial packets" } else { "" }, hex(&truth));
         match wait_rule_input(before) {
             None => ctx.oracle_failure("no_rule_input", &format!("{}: the handshake completed but the connection rules were never consulted", desc)),
             Some((_, None)) => ctx.oracle_failure("random_absent", &format!("{}: the client random was reported absent on QUIC", desc)),
